@@ -25,6 +25,11 @@ def gen(rng, tier):
         cs.append(Case("sign_seed_keypair %s" % hx(seed), cls="sign_seed", expect="ok %s %s" % (hx(pk), hx(seed + pk))))
         cs.append(Case("ed_to_curve %s %s" % (hx(pk), hx(seed + pk)), cls="ed_to_curve/honest",
                        expect=lambda a: a.startswith("ok ") and a.endswith(" consistent"), meta={"why": "converted pair inconsistent: base·(converted sk) ≠ converted pk"}))
+    # a key pair derived from a password: the Config's hash_length / salt_length must not influence the key (libsodium: crypto_pwhash with outlen 32)
+    for i, hl in enumerate([16, 31, 32, 33, 48, 64, 128]):
+        pwd, salt = rbytes(rng, 3 + i), rbytes(rng, 16)
+        cs.append(Case("pwhash_keypair 1 8192 %s %s" % (hx(pwd), hx(salt)), cls="pwhash_keypair/default"))
+        cs.append(Case("pwhash_keypair 1 8192 %s %s %d" % (hx(pwd), hx(salt), hl), cls="pwhash_keypair/hash_length"))
     # public key recomputed from a secret key, incl. unclamped ones: every pattern of the five clamped bits
     for lo in range(8):
         for hi in range(4):
